@@ -115,6 +115,12 @@ def termmon_scenarios(ctx, maxlen, quick):
                 steps += [st("ossig", x) for x in sigs[1:]]
                 steps += [st("finish", p["h"]) for p in pre[1:]]
                 out.append({"id": "tmos%d" % k, "kind": "termmon", "steps": steps, "src": "os-signals"}); k += 1
+            if pre:
+                # main is held while it closes its listeners (between wait(false) and wait(true)): handlers finish and a second
+                # signal arrives THEN - nothing may be lost, the count must come down and the shutdown complete
+                steps = [st("closehold")] + list(pre) + [st("ossig", sigs[0])] + [dict(st("finish", p["h"]), quiet=False) for p in pre] + \
+                        [dict(st("ossig", x), quiet=False) for x in sigs[1:]] + [st("closedone")]
+                out.append({"id": "tmos%d" % k, "kind": "termmon", "steps": steps, "src": "os-signals"}); k += 1
             if len(sigs) > 1:
                 # both while main is busy; the handlers (if any) never finish: SIGTERM / a second signal must end it anyway
                 steps = [st("config")] + list(pre) + [st("ossig", x) for x in sigs] + [st("configdone")]
